@@ -139,8 +139,14 @@ class Prop(BaseProp):
                 o = impl.outcome(lambda: lic.parse(op['text']))
                 if P.is_ok(o):
                     shared[op['text']] = o[1]
-                    if lic.parse(o[1]) is not o[1] or insts[0].parse(o[1]) is not o[1]:
-                        return Verdict('spec', case, 'parse(expression) does not return that very object (op %d)' % n)
+                    for who in (lic, insts[0], insts[-1]):
+                        for simple in (False, True):
+                            for strict in (False, True):
+                                for validate in (False, True):
+                                    r = impl.outcome(lambda: who.parse(o[1], simple=simple, strict=strict, validate=validate))
+                                    if not (P.is_ok(r) and r[1] is o[1]):
+                                        return Verdict('spec', case, 'parse(expression, simple=%s, strict=%s, validate=%s) does not return that very object (op %d)'
+                                                       % (simple, strict, validate, n), impl=r[0] if not P.is_ok(r) else impl.tree_c(r[1]))
                 continue
             before = {t: snap(e) for t, e in shared.items()}
             got = self.answer(lic, op, shared)
